@@ -228,7 +228,10 @@ def tcp_next(E):
     from pyvc import aio
     data = E.input('read', E.fresh_bytes('read'))
     reader, writer = SOpaque('reader', 'reader'), SOpaque('writer', 'writer')
-    log = OpaqueLog(E, returns={'read': lambda *a: aio.Awaitable('ready', result=data)}, may_raise=lambda o, m: m == 'read')
+    # StreamReader contract: read() returns some bytes (empty only at EOF); at_eof() may already be true while the last read
+    # still returns data (the FIN arrived together with the last bytes)
+    log = OpaqueLog(E, returns={'read': lambda *a: aio.Awaitable('ready', result=data),
+                                'at_eof': lambda *a: E.fresh_bool('fin-already-arrived')}, may_raise=lambda o, m: m == 'read')
     tr = E.call(E.lookup(TCP), [reader, writer])
     parser = tr.attrs['_frame_parser']
     seen = []
@@ -262,8 +265,16 @@ def msg_next(E):
     tr = new_obj(E, AMT)
     q = E.call(E.import_module('asyncio').getattr(E, 'Queue'), [])
     tr.attrs['_incoming_frame_queue'] = q
-    is_exc = E.path.choice(2, 'item-kind') == 1
-    item = E.make_exc(E.lookup('rsocket/exceptions.py::RSocketTransportError')) if is_exc else SOpaque('frame', 'queued-frame', props={'isinstance:Exception': False})
+    kind = E.path.choice(3, 'item-kind')
+    is_exc = kind == 1
+    # what the websocket/quic listeners queue: a decoded frame, the InvalidFrame marker of an undecodable message (which is
+    # NOT a Frame and must reach the receiver like any other item, never be raised), or a transport exception
+    if kind == 0:
+        item = E.call(E.lookup('rsocket/frame.py::PayloadFrame'), [])
+    elif kind == 1:
+        item = E.make_exc(E.lookup('rsocket/exceptions.py::RSocketTransportError'))
+    else:
+        item = E.call(E.lookup('rsocket/frame.py::InvalidFrame'), [])
     other = SOpaque('frame', 'second-frame')
     E.call(E.getattr(q, 'put_nowait'), [item])
     E.call(E.getattr(q, 'put_nowait'), [other])
